@@ -12,12 +12,14 @@ VERUS = [dict(
     uses="use vstd::prelude::*;\n",
     prelude="prelude.rs", proofs="proofs.rs", witness="witness.rs", rlimit=80, min_verified=14,
     twins=[],
+    # R8 (generic): every statement whose only effect is on the hit counters is dropped
+    global_edits=[dict(rule="R8", regex=r"\*?self\.hits\.[^;{}]*;", replace="", count="any")],
     items=[
         dict(file=F, path=["struct ValueEntry"]),
         dict(file=F, path=["struct DefaultCacheState"], prefix=RR,
              edits=[dict(rule="R8", find="    hits: HashMap<K, usize>,\n", replace="")]),
         dict(file=F, path=[IMPL, "fn remove"], wrap=IMPL, ret="r",
-             edits=[dict(rule="R8", find="self.hits.remove(key);", replace="")],
+             edits=[],
              contract="""    requires wf(*old(self)),
     ensures wf(*final(self)), """ + KEEP + """
         final(self).memory_used <= old(self).memory_used,
@@ -34,8 +36,7 @@ VERUS = [dict(
         }""")]),
         dict(file=F, path=[IMPL, "fn evict_entries"], wrap=IMPL, loop_count=1,
              edits=[dict(rule="R5", regex=r"log::error!\((?:[^()]|\([^()]*\))*\);", replace="", count=1),
-                    dict(rule="R5", find='debug_assert!(false, "memory_used > limit with empty cache");', replace="assert(false); // proved unreachable under wf"),
-                    dict(rule="R8", find="self.hits.remove(&evicted_key);", replace="")],
+                    dict(rule="R5", find='debug_assert!(false, "memory_used > limit with empty cache");', replace="assert(false); // proved unreachable under wf"),],
              contract="""    requires wf(*old(self)),
     ensures wf(*final(self)), within_budget(*final(self)), """ + KEEP + """
         evicted_to(old(self).lru_queue.view(), old(self).memory_limit as int, final(self).lru_queue.view()),""",
@@ -66,22 +67,11 @@ VERUS = [dict(
             }"""),
              ]),
         dict(file=F, path=[IMPL, "fn clear"], wrap=IMPL,
-             edits=[dict(rule="R8", find="self.hits.clear();", replace="")],
+             edits=[],
              contract="""    ensures wf(*final(self)), """ + KEEP + """
         final(self).lru_queue.view().len() == 0, final(self).memory_used == 0,"""),
         dict(file=F, path=[IMPL, "fn get"], wrap=IMPL, ret="r",
-             edits=[dict(rule="R4", find="""        if let Some(exp) = entry.expires
-            && now > exp
-        {
-            self.remove(key);
-            return None;
-        }""", replace="""        if let Some(exp) = entry.expires {
-            if now > exp {
-            self.remove(key);
-            return None;
-            }
-        }"""),
-                    dict(rule="R8", find="*self.hits.entry(key.clone()).or_insert(0) += 1;", replace="")],
+             edits=[dict(rule="R4", letchains=True),],
              contract="""    requires wf(*old(self)),
     ensures wf(*final(self)), """ + KEEP + """
         final(self).memory_used <= old(self).memory_used,
@@ -131,7 +121,6 @@ VERUS = [dict(
         proof { lemma_index_of(self.lru_queue.view(), *key); }""")]),
         dict(file=F, path=[IMPL, "fn put"], wrap=IMPL, ret="r",
              edits=[dict(rule="R13", find="self.ttl.map(|ttl| now + ttl)", replace="expiry_of(self.ttl, now)"),
-                    dict(rule="R8", find="self.hits.insert(key.clone(), 0);", replace=""),
                     dict(rule="R6", find="old.map(|v| v.value)", replace="match old { Some(v) => Some(v.value), None => None }")],
              contract="""    requires wf(*old(self)), within_budget(*old(self)),
              old(self).memory_limit <= usize::MAX / 2,
